@@ -60,6 +60,15 @@ func genC01(r *core.Rng, id int) *Case {
 			}
 		}
 	}
+	if id%6 == 4 {
+		// an object type bound globally, and generated as a struct after all at one place by the
+		// documented `typename: ..., bind: "-"`
+		if op, tn := gen.BoundObjectUnboundHereOp(s, "BO"); op != nil {
+			defs = append(defs, op)
+			l = gen.SingleFile(len(defs))
+			cfg.Bindings[tn] = "example.com/b.T" // a type of the scratch module's stub package b
+		}
+	}
 	// marshaler and unmarshaler are independently optional: make every custom-marshaled
 	// binding one-sided in half of the programs
 	for k, mu := range cfg.Marshalers {
